@@ -120,6 +120,79 @@ func c13DefaultChild(args []string) {
 	res.Write(b)
 }
 
+// c13CloseThenLog: closing a logger's writers through the library closes what can be closed; a destination without a
+// Close method (a plain io.Writer the program owns and keeps using) goes on receiving records afterwards - no sticky
+// failure, no diagnostic (direct oracle, in this process)
+func c13CloseThenLog(r *Run) {
+	snap := slog.VerifSnapshot()
+	defer resetProcess(snap)
+	for _, how := range []string{"GetWriter().Close()", "GetWriterBy(Error).Close()", "GetWriter().Close() twice"} {
+		for _, mode := range []string{"logfmt", "json"} {
+			resetProcess(snap)
+			slog.AddFlags(slog.LnoInterrupt)
+			l := slog.VerifEntryOf(slog.New("c13close"))
+			l.SetWriter(pool[1]).SetErrorWriter(pool[2]).SetLevel(slog.InfoLevel)
+			if mode == "json" {
+				l.SetJSONMode(true)
+			} else {
+				l.SetColorMode(false)
+			}
+			count := func() (n1, n2, diag int) {
+				for _, ev := range events {
+					if ev.Kind == "write" {
+						if bytes.Contains(ev.Payload, []byte(c13DiagText)) {
+							diag++
+						} else if ev.W == 1 {
+							n1++
+						} else if ev.W == 2 {
+							n2++
+						}
+					}
+				}
+				return
+			}
+			events = nil
+			l.Info("before close")
+			l.Error("before close")
+			var cerr any
+			func() {
+				defer func() {
+					if p := recover(); p != nil {
+						cerr = p
+					}
+				}()
+				switch how {
+				case "GetWriterBy(Error).Close()":
+					_ = l.GetWriterBy(slog.ErrorLevel).Close()
+				case "GetWriter().Close() twice":
+					_ = l.GetWriter().Close()
+					_ = l.GetWriter().Close()
+				default:
+					_ = l.GetWriter().Close()
+				}
+			}()
+			a1, a2, _ := count()
+			events = nil
+			l.Info("after close")
+			l.Error("after close")
+			l.Info("after close, again")
+			b1, b2, diag := count()
+			events = nil
+			r.Count(true, "close-then-log "+how+" "+mode)
+			r.Dist["close-then-log"]++
+			rep := map[string]any{"mode": "close-then-log", "how": how, "format": mode, "before": []int{a1, a2}, "after": []int{b1, b2}, "diagnostics": diag, "close_panic": fmt.Sprint(cerr)}
+			switch {
+			case cerr != nil:
+				r.Fail("C13/close-then-log", fmt.Sprintf("%s panicked: %v", how, cerr), rep)
+			case a1 != 1 || a2 != 1:
+				r.Fail("C13/close-then-log", fmt.Sprintf("before the close: %d / %d records on the normal / error destination, one each expected", a1, a2), rep)
+			case b1 != 2 || b2 != 1 || diag != 0:
+				r.Fail("C13/close-then-log", fmt.Sprintf("after %s (destinations without a Close method, still working): %d / %d records on the normal / error destination (2 / 1 expected), %d diagnostics", how, b1, b2, diag), rep)
+			}
+		}
+	}
+}
+
 func c13DefaultCheck(r *Run) {
 	exe, err := os.Executable()
 	must(err)
